@@ -28,5 +28,23 @@ func (c *Ctx) emitMore03(r opRun, m modeling.Mesh, _ bool) {
 		c.Emit("c03.holds.frame_spec", "2 "+f[0]+" "+in+" "+out, "true")
 	case "copyattr":
 		c.Emit("c03.holds.frame_spec", f[0]+" "+f[1]+" "+in+" "+out, "true")
+	case "cropnode":
+		if f[1] == "-" { // no box wired: the mesh itself
+			c.Emit("c03.holds.same_mesh", in+" "+out, "true")
+		} else {
+			a := f[0]
+			if a == "-" {
+				a = modeling.PositionAttribute
+			}
+			c.Emit("c03.holds.crop_contract", a+" "+strings.Join(f[1:7], " ")+" "+in+" "+out, "true")
+		}
+	case "alongnormalnode":
+		if f[3] != "-" && len(r.out[0].Float3Attributes()) > 0 {
+			a := f[0]
+			if a == "-" {
+				a = modeling.PositionAttribute
+			}
+			c.Emit("c03.holds.frame_spec", "3 "+a+" "+in+" "+out, "true")
+		}
 	}
 }
